@@ -23,7 +23,7 @@ type lockName struct {
 // A few shared names with FIXED sizes (every request on them asks for that size, so that a lock collected by GC and
 // created again keeps it): contention, parked Lock calls, hand-offs, collection of idle locks. adm* are the only names
 // the admin actor unlocks behind their holders' backs.
-var sharedNames = []lockName{{"s0", 1}, {"s1", 1}, {"s2", 2}, {"s3", 3}, {"s4", 1}, {"adm0", 1}, {"adm1", 2}}
+var sharedNames = []lockName{{"s0", 1}, {"s1", 1}, {"s2", 2}, {"s3", 3}, {"s4", 1}, {"s5", 2}, {"s6", 1}, {"s7", 4}, {"s8", 1}, {"s9", 2}, {"adm0", 1}, {"adm1", 2}}
 
 func isAdm(n string) bool { return strings.HasPrefix(n, "adm") }
 
@@ -63,9 +63,12 @@ type expect struct {
 }
 
 var (
-	pkgsRest   = []string{"net/rest", "net/grpc", "net", "server"}
-	pkgsGrpc   = []string{"net/grpc", "net", "server"}
-	pkgsClient = []string{"client", "net/grpc", "net", "server"}
+	// the packages a KIND of anomaly is attributed to: a body that is not one response, a wrong name, cookie or status is the
+	// transport's; a wrong error code, flag or key can also come from below it (pkgsSem is added for those classes)
+	pkgsRest   = []string{"net/rest", "net/grpc", "net"}
+	pkgsGrpc   = []string{"net/grpc", "net"}
+	pkgsClient = []string{"client", "net/grpc", "net"}
+	pkgsSem    = []string{"server", "lock", "timermap"}
 	pkgsIpc    = []string{"server/ipc", "server"}
 	pkgsClose  = []string{"server", "net", "net/grpc", "net/rest", "lock", "timermap"}
 )
@@ -118,7 +121,11 @@ func in(s string, xs []string) bool {
 func (e *env) judge(actor, via string, pkgs []string, ex expect, r resp, req string) bool {
 	closing := e.closing.Load()
 	bad := func(class, what string) bool {
-		e.anomaly(actor, via, ex.Op, class, pkgs, what, req, r.Raw)
+		ps := pkgs
+		if class != "name" {
+			ps = append(append([]string{}, pkgs...), pkgsSem...)
+		}
+		e.anomaly(actor, via, ex.Op, class, ps, what, req, r.Raw)
 		return false
 	}
 	if r.Name != ex.Name {
